@@ -14,6 +14,35 @@ FLAGS = set()
 SIGNIFICANT = {'NAME', 'NUMBER', 'STRING', 'OP', 'NEWLINE', 'INDENT', 'DEDENT', 'ENDMARKER'}
 
 
+def _inner(toks, cooked):
+    """Normal form of the tokens of one (possibly nested) f-string, FSTRING_START .. FSTRING_END inclusive:
+    ('F<', opening text), ('FTXT', literal text with adjacent pieces merged and '{{' / '}}' read as one brace),
+    (type, text, position) for the tokens of replacement fields, ('F>', closing quote)."""
+    out = []
+    lit = []
+
+    def flush():
+        if ''.join(lit):            # CPython emits empty FSTRING_MIDDLE tokens after a nested field of a format spec
+            out.append(('FTXT', ''.join(lit)))
+        del lit[:]
+    for name, string, pos in toks:
+        if name == 'FSTRING_START':
+            flush()
+            out.append(('F<', string))
+        elif name == 'FSTRING_END':
+            flush()
+            out.append(('F>', string))
+        elif name in ('FSTRING_MIDDLE', 'FSTRING_STRING'):
+            lit.append(string if cooked else string.replace('{{', '{').replace('}}', '}'))
+        elif name in ('COMMENT', 'NL') or (name == 'NEWLINE' and string == ''):
+            continue
+        else:
+            flush()
+            out.append((name, string, pos))
+    flush()
+    return out
+
+
 def reference(code):
     out = []
     lines = code.splitlines(True)
@@ -45,6 +74,11 @@ def reference(code):
             if any(reftok.tok_name[x.type] in ('FSTRING_START', 'STRING') and x.string.lstrip('rRbBuUfF')[:1] == q
                    for x in toks[i + 1:j]):
                 FLAGS.add('pep701-quote-reuse')
+            if any(reftok.tok_name[x.type] == 'COMMENT' for x in toks[i + 1:j]):
+                FLAGS.add('pep701-comment-in-replacement-field')
+            # the inside of the f-string: literal text (adjacent pieces merged; CPython reports '{{' as '{') and the tokens
+            # of the replacement fields
+            out.extend(_inner([(reftok.tok_name[x.type], x.string, x.start) for x in toks[i:j + 1]], cooked=True))
             i = j + 1
             continue
         if name == 'NEWLINE' and t.string == '':
@@ -84,6 +118,7 @@ def parso_stream(code, version):
                         break
                 j += 1
             out.append(('STRING', None, t.start_pos))
+            out.extend(_inner([(x.type.name, x.string, x.start_pos) for x in toks[i:j + 1]], cooked=False))
             i = j + 1
             continue
         if name in ('INDENT', 'DEDENT', 'ENDMARKER'):
@@ -117,6 +152,9 @@ def check(code, version, env):
         g = got[k] if k < len(got) else None
         e = exp[k] if k < len(exp) else None
         sig = '%s/%s' % (g[0] if g else '-', e[0] if e else '-')
+        import re as _re
+        if _re.search(r'(?:^|\n)[ \t]+\\\r?\n', code) and 'INDENT' in sig or 'DEDENT' in sig and _re.search(r'(?:^|\n)[ \t]+\\\r?\n', code):
+            FLAGS.add('indent-from-continuation-line')
         if FLAGS:
             sig = sorted(FLAGS)[0]
         return [Fail('bnd:C10.same_tokens', sig, 'token %d: parso %r, CPython %s %r' % (k, g, PYV, e), code)]
